@@ -138,6 +138,7 @@ type stream struct {
 	sent    [][]byte // packets accepted by Write, in order
 	frames  []frame
 	maxSpan int // largest number of frames any packet is spread over
+	id      uint32
 	dead    bool
 }
 
@@ -160,10 +161,13 @@ func readTimeout(enc *dataplane.VerifEncoder) ([]byte, bool) {
 }
 
 // runEncoder drives one real encoder through a random write/read schedule.
-func runEncoder(e *vlib.Env, r *vlib.Rand, mtu int, big bool) *stream {
+func runEncoder(e *vlib.Env, r *vlib.Rand, mtu int, big bool, forceID *uint32) *stream {
 	streamID := uint32(r.U64())
+	if forceID != nil {
+		streamID = *forceID
+	}
 	sess := uint8(r.Intn(256))
-	st := &stream{mtu: mtu, epoch: int(streamID & 0xfffff)}
+	st := &stream{mtu: mtu, epoch: int(streamID & 0xfffff), id: streamID}
 	enc := dataplane.NewVerifEncoder(sess, streamID, uint16(mtu))
 	e.Op(fmt.Sprintf("new %d %d", mtu, st.epoch), "ok", "~new")
 	npk := r.Range(1, 24)
@@ -351,7 +355,7 @@ func main() {
 			mtu = r.Range(57, 9000)
 		}
 		big := mtu >= 107 || r.Chance(5)
-		s1 := runEncoder(e, r, mtu, big)
+		s1 := runEncoder(e, r, mtu, big, nil)
 		if s1.dead {
 			break
 		}
@@ -394,7 +398,20 @@ func main() {
 		}
 		fs := append([]frame(nil), s1.frames...)
 		if r.Chance(35) {
-			s2 := runEncoder(e, r, mtus[r.Intn(len(mtus))], false)
+			// half of the second streams have an id that differs from the first one's only in
+			// the upper bits 16..19 of the 20-bit stream field (or only in bit 19), the same MTU and
+			// the same kind of traffic: the receiver must keep the two apart
+			var force *uint32
+			mtu2 := mtus[r.Intn(len(mtus))]
+			if r.Chance(50) {
+				id := s1.id ^ uint32(r.Range(1, 15))<<16
+				if r.Chance(40) {
+					id = s1.id ^ 1<<19
+				}
+				force = &id
+				mtu2 = mtu
+			}
+			s2 := runEncoder(e, r, mtu2, false, force)
 			if s2.dead {
 				break
 			}
